@@ -147,7 +147,7 @@ fn classes() -> Vec<Class> {
 
 pub fn run(args: &Args) -> Report {
     let mut report = Report::new("C18", "fault_enumeration");
-    let k = args.tier.pick(2usize, 3usize);
+    let k = args.tier.pick(2usize, 5usize);
     let cts: Vec<(Option<&'static str>, &'static str)> = vec![(Some("application/json"), "exact"), (None, "other"), (Some("application/octet-stream"), "other"), (Some("application/x-jackson-smile"), "other"), (Some("text/plain"), "other"), (Some("application/json; charset=utf-8"), "unclear"), (Some("application/json+xml"), "other")];
     for class in classes() {
         for (body, value) in &class.bodies {
